@@ -6,7 +6,6 @@ import (
 	"bufio"
 	"crypto/sha256"
 	"encoding/base64"
-	"encoding/hex"
 	"encoding/json"
 	"flag"
 	"fmt"
@@ -29,13 +28,6 @@ import (
 
 func init() {
 	register("auth", "C02/C13: login, logout and callback requests through the real router vs Model/Auth.v", runAuth)
-}
-
-func hx(s string) string {
-	if s == "" {
-		return "-"
-	}
-	return hex.EncodeToString([]byte(s))
 }
 
 // acfgLine renders the configuration in the syntax of ml/handlers/h_auth.ml
